@@ -112,6 +112,20 @@ PasteSoundOK(c, o) ==
   ELSE IF ~(NearInt(c.A[3], Abs(c.A[1]), c.ttol[1], c.ttol[2]) /\ NearInt(c.A[6], Abs(c.A[1]), c.ttol[1], c.ttol[2])) THEN "paste_reported_for_sub_pixel_shift_beyond_tolerance"
   ELSE IF o.shrink > 1 /\ ~(o.roi_src[2] - o.roi_src[1] = o.shrink * (o.roi_dst[2] - o.roi_dst[1]) /\ o.roi_src[4] - o.roi_src[3] = o.shrink * (o.roi_dst[4] - o.roi_dst[3])) THEN "source_region_is_not_destination_region_times_shrink"
   ELSE "ok"
+\* the planned regions of a paste: inside their images (the source region up to the next multiple of the shrink factor), the source
+\* region is the destination region times the shrink factor, and every destination pixel of the region has source under its footprint
+FootprintTouchesSource(c, q, r) ==
+  LET x0 == c.A[1] * q + c.A[3] x1 == c.A[1] * (q + 1) + c.A[3] y0 == c.A[5] * r + c.A[6] y1 == c.A[5] * (r + 1) + c.A[6] IN
+  Min2(x0, x1) < c.ws * D /\ Max2(x0, x1) > 0 /\ Min2(y0, y1) < c.hs * D /\ Max2(y0, y1) > 0
+PasteRegionsOK(c, o) ==
+  LET rs == o.roi_src rd == o.roi_dst k == o.shrink IN
+  IF ~o.paste_ok \/ ~IsST(c.A) THEN "ok"
+  ELSE IF k < 1 THEN "read_shrink_not_a_positive_integer"
+  ELSE IF ~(0 <= rd[1] /\ rd[1] <= rd[2] /\ rd[2] <= c.hd /\ 0 <= rd[3] /\ rd[3] <= rd[4] /\ rd[4] <= c.wd) THEN "planned_destination_region_outside_image"
+  ELSE IF ~(0 <= rs[1] /\ rs[1] <= rs[2] /\ rs[2] <= AlignUp(c.hs, k) /\ 0 <= rs[3] /\ rs[3] <= rs[4] /\ rs[4] <= AlignUp(c.ws, k)) THEN "planned_source_region_outside_image"
+  ELSE IF ~(rs[2] - rs[1] = k * (rd[2] - rd[1]) /\ rs[4] - rs[3] = k * (rd[4] - rd[3])) THEN "source_region_is_not_destination_region_times_shrink"
+  ELSE IF \E r \in rd[1]..(rd[2] - 1), q \in rd[3]..(rd[4] - 1) : ~FootprintTouchesSource(c, q, r) THEN "destination_region_has_a_pixel_with_no_source_under_it"
+  ELSE "ok"
 \* nearest-neighbour warp from first principles: destination pixel <- source pixel under its centre, else nodata
 NNImage(c, src, nodata) ==
   [r \in 1..c.hd |-> [q \in 1..c.wd |->
